@@ -26,11 +26,11 @@ Proof. exact ack_implies_read_after_write. Qed.
 Print Assumptions C34_ack_implies_read_after_write.
 
 (* the same over engine Sim's model of the real simulator: the unified atomic tick is a SimTick
-   [write hook; read hook] (any batch hook kinds) decided by the real run_hooks procedure; for
+   of nw write hooks followed by any number of read hooks (any hook kinds) decided by the real run_hooks procedure; for
    every arrival and decision script *)
 Theorem C34_sim_ack_implies_read_after_write :
-  forall sc s obs i j acks resps acks' resps' w r snap,
-    run_sim_atomic s sc = Ok obs -> i <= j ->
+  forall nw sc s obs i j acks resps acks' resps' w r snap,
+    run_sim_atomic nw s sc = Ok obs -> i <= j ->
     nth_error obs i = Some (acks, resps) -> In w acks ->
     nth_error obs j = Some (acks', resps') -> In (r, snap) resps' ->
     In w snap.
